@@ -35,6 +35,7 @@ type btOp struct {
 	Mods    []*btapb.ModifyColumnFamiliesRequest_Modification
 	Prefix  string
 	Force   bool
+	Obs     *ORow // CAM: the row as an unfiltered read returned it (cell order for order-sensitive predicates)
 }
 
 func (o btOp) String() string {
@@ -407,6 +408,60 @@ func (m *btModel) step(op btOp, resp btResp, nowUs int64) (kind string, msg stri
 				t.setRow(e.Key, out.row)
 			}
 		}
+	case "CAM":
+		row := t.row(op.Key)
+		matched := !row.empty()
+		predInvalid, predMaybe := false, false
+		if op.Pred != nil {
+			obs := row.render(op.Key)
+			if op.Obs != nil {
+				obs = *op.Obs
+			}
+			fo := evalFilterRow(op.Pred, obs)
+			predInvalid, predMaybe = fo.required, fo.permitted
+			matched = len(fo.outs) > 0 && len(fo.outs[0]) > 0
+			if row.empty() {
+				matched = false
+				if staticInvalid(op.Pred) {
+					predMaybe = true
+				}
+			}
+		}
+		if predInvalid {
+			if resp.ok() {
+				return "invalid-accepted", fmt.Sprintf("%s: accepted, but the predicate is invalid", op)
+			}
+			return "", ""
+		}
+		if !resp.ok() && predMaybe {
+			return "", ""
+		}
+		muts := op.FalseM
+		if matched {
+			muts = op.TrueM
+		}
+		out := t.applyMutations(row, muts, nowUs)
+		switch {
+		case out.either:
+			if resp.ok() && resp.Matched != matched {
+				return "cam-matched", fmt.Sprintf("%s: predicate_matched=%v, want %v (row %s)", op, resp.Matched, matched, row.render(op.Key))
+			}
+		case out.err != nil:
+			if resp.ok() {
+				return "invalid-accepted", fmt.Sprintf("%s: accepted, but the selected (%v) mutation list is invalid (%v)", op, matched, out.err)
+			}
+		default:
+			if !resp.ok() {
+				if out.altErr {
+					break
+				}
+				return "valid-rejected", fmt.Sprintf("%s: rejected with %v (%s), but the request is valid (row %s)", op, resp.Code, resp.Err, row.render(op.Key))
+			}
+			if resp.Matched != matched {
+				return "cam-matched", fmt.Sprintf("%s: predicate_matched=%v, want %v (row %s)", op, resp.Matched, matched, row.render(op.Key))
+			}
+			t.setRow(op.Key, out.row)
+		}
 	case "RMW":
 		nr, cells, err, either := t.rmw(t.row(op.Key), op.Rules, nowUs)
 		switch {
@@ -643,15 +698,23 @@ func record(s *Stream, n int) *draws {
 }
 
 func (d *draws) n(mod int) int {
-	if d.i >= len(d.v) {
-		harnessErr("record overrun")
-	}
-	x := d.v[d.i]
+	// past the end the record wraps around: still a pure function of the record
+	x := d.v[d.i%len(d.v)]
 	d.i++
 	if mod <= 1 {
 		return 0
 	}
 	return x % mod
+}
+
+// sub carves the next n draws out as an independent record (wrapping around at the end).
+func (d *draws) sub(n int) *draws {
+	o := &draws{v: make([]int, n)}
+	for i := range o.v {
+		o.v[i] = d.v[(d.i+i)%len(d.v)]
+	}
+	d.i += n
+	return o
 }
 
 func (d *draws) w(weights ...int) int {
@@ -725,8 +788,7 @@ func (g *btGen) value(d *draws) []byte {
 
 // mutation consumes exactly 8 draws.
 func (g *btGen) mutation(d *draws) *btpb.Mutation {
-	sub := &draws{v: d.v[d.i : d.i+8]}
-	d.i += 8
+	sub := d.sub(8)
 	d = sub
 	switch d.w(12, 4, 2, 2, 1) {
 	case 0:
